@@ -236,15 +236,17 @@ def confirm(clause: str, rec: dict) -> bool:
         inside = l1 >= 0 and l2 >= 0 and t * t <= 4 * l1 * l2
         return rec["ind"] != (ONE if inside else rec["ov"])
     if clause == "KallenSymmetric":
-        return len({tuple(v) for v in rec["vals"]}) > 1
+        return len({tuple(v) for v in rec["vals"]}) > 1 or any(abs(v[0]) >= ps.INT_MAX for v in rec["vals"])
     if clause == "KallenFactorises":
         x, b, c = rec["a"]
         e = rec["e"]
-        return _frac(rec["val"]) != Fraction((x - (b + c) ** 2) * (x - (b - c) ** 2), e**4)
+        return abs(rec["val"][0]) >= ps.INT_MAX or _frac(rec["val"]) != Fraction((x - (b + c) ** 2) * (x - (b - c) ** 2), e**4)
     if clause == "KallenValue":
         # (x - (sqrt y + sqrt z)^2)(x - (sqrt y - sqrt z)^2), exact SymPy algebra (also for y, z < 0)
         import sympy as sp
 
+        if abs(rec["vals"][0][0]) >= ps.INT_MAX:
+            return True
         x, y, z = (sp.Rational(v, rec["d"]) for v in rec["a"])
         f = sp.expand((x - (sp.sqrt(y) + sp.sqrt(z)) ** 2) * (x - (sp.sqrt(y) - sp.sqrt(z)) ** 2))
         return sp.simplify(f - sp.Rational(*rec["vals"][0])) != 0
@@ -367,12 +369,6 @@ def run(chk, replay=None):
     t0 = time.time()
     records = run_impl(jobs)
     chk.part("implementation", points=len(records), wall_s=round(time.time() - t0, 1))
-    if mc_future is not None:
-        res = mc_future.result()
-        chk.add_tlc("reference_exhaustive", res)
-        if not res.ok:
-            raise Machinery(f"the reference PhaseSpace3 violates its own law {res.violated}: specification error\n" + "\n".join(res.error_trace[:40]))
-    mc_pool.shutdown()
     by_id = {r["id"]: (r, j) for r, j in zip(records, jobs)}
     chk.count(len(records))
     for r in records:
@@ -411,6 +407,12 @@ def run(chk, replay=None):
                 drift.setdefault(clause, rec)
     for clause, rec in drift.items():
         chk.spec_drift(f"{clause}: the implementation's value differs from the reference value although no clause of the property is contradicted by it, e.g. at {rec}")
+    if mc_future is not None:
+        res = mc_future.result()
+        chk.add_tlc("reference_exhaustive", res)
+        if not res.ok:
+            raise Machinery(f"the reference PhaseSpace3 violates its own law {res.violated}: specification error\n" + "\n".join(res.error_trace[:40]))
+    mc_pool.shutdown()
     chk.part("trace_stats", **stats)
     if not replay:
         missing = [k for k in NEEDED_STATS if stats.get(k, 0) == 0]
